@@ -266,6 +266,125 @@ type histGen struct {
 	issued  []string // IDs of accepted puts, in order
 	nextTok uint64
 	nextMan int
+	// how the IDs the publisher chooses itself are spelled (manual mode; also the rejected explicit IDs of automatic mode)
+	manStyle int
+	manPerm  []int // manStyleShuffled: a permutation of 0..len-1 (beyond it: the identity)
+}
+
+// spellings of the k-th explicit ID.  Applications that set IDs themselves mostly number their events, so explicit IDs
+// that LOOK like generated ones (canonical decimals) in every order are a class of their own, next to opaque names.
+const (
+	manStyleName     = iota // "m0", "m1", ...
+	manStyleCounting        // "0", "1", "2", ... exactly what an automatic replayer would issue
+	manStyleDown            // decreasing decimals
+	manStyleBlocks          // decimals, every block of three out of order: 0 2 1 3 5 4 ...
+	manStyleGapped          // increasing with gaps: 0 1 5 6 10 11 ...
+	manStylePadded          // decimals with leading zeros: "000", "001", ...
+	manStyleMixed           // decimals and names alternating
+	manStyleShuffled        // decimals in a shuffled order (manPerm; without one: k*7+3 mod 11 per block of 11)
+	manStyleOffset          // consecutive decimals that do not start at 0
+	numManStyles
+)
+
+func (g *histGen) manID(k int) string {
+	switch g.manStyle {
+	case manStyleCounting:
+		return strconv.Itoa(k)
+	case manStyleDown:
+		return strconv.Itoa(100000 - k)
+	case manStyleBlocks:
+		return strconv.Itoa(k/3*3 + []int{0, 2, 1}[k%3])
+	case manStyleGapped:
+		return strconv.Itoa(k + k/2*3)
+	case manStylePadded:
+		return fmt.Sprintf("%03d", k)
+	case manStyleMixed:
+		if k%2 == 0 {
+			return strconv.Itoa(k)
+		}
+		return "m" + strconv.Itoa(k)
+	case manStyleShuffled:
+		if k < len(g.manPerm) {
+			return strconv.Itoa(g.manPerm[k])
+		}
+		if g.manPerm != nil {
+			return strconv.Itoa(k)
+		}
+		return strconv.Itoa(k/11*11 + (k*7+3)%11)
+	case manStyleOffset:
+		return strconv.Itoa(k + 17)
+	}
+	return "m" + strconv.Itoa(k)
+}
+
+// blockShuffle is a permutation of 0..n-1 that shuffles blocks of 2-5 neighbours (IDs out of order, but close together)
+func blockShuffle(r *rng.R, n int) []int {
+	p := make([]int, n)
+	for i := range p {
+		p[i] = i
+	}
+	for lo := 0; lo < n; {
+		hi := lo + 2 + r.Intn(4)
+		if hi > n {
+			hi = n
+		}
+		for i := hi - 1; i > lo; i-- {
+			j := lo + r.Intn(i-lo+1)
+			p[i], p[j] = p[j], p[i]
+		}
+		lo = hi
+	}
+	return p
+}
+
+// randHist: a history generator with a random spelling of the explicit IDs (opaque names half of the time)
+func randHist(r *rng.R, auto bool, maxOps int) *histGen {
+	g := &histGen{auto: auto}
+	if r.Bool() {
+		g.manStyle = 1 + r.Intn(numManStyles-1)
+		if g.manStyle == manStyleShuffled {
+			g.manPerm = blockShuffle(r, maxOps)
+		}
+	}
+	return g
+}
+
+// unissuedNumeral: a canonical decimal that no accepted put carries - inside the range of the issued numerals if there is
+// a hole there (one of the four nearest to the largest, which one depends on the history's length), else (or if !inside)
+// the largest issued numeral plus one
+func (g *histGen) unissuedNumeral(inside bool) string {
+	have := map[uint64]bool{}
+	var lo, hi uint64
+	first := true
+	for _, id := range g.issued {
+		n, err := strconv.ParseUint(id, 10, 64)
+		if err != nil || strconv.FormatUint(n, 10) != id {
+			continue
+		}
+		have[n] = true
+		if first || n < lo {
+			lo = n
+		}
+		if first || n > hi {
+			hi = n
+		}
+		first = false
+	}
+	if first {
+		return "1"
+	}
+	if inside {
+		holes := []uint64{}
+		for n := hi; n > lo && hi-n < 64 && len(holes) < 4; n-- {
+			if !have[n] {
+				holes = append(holes, n)
+			}
+		}
+		if len(holes) > 0 {
+			return strconv.FormatUint(holes[len(g.issued)%len(holes)], 10)
+		}
+	}
+	return strconv.FormatUint(hi+1, 10)
 }
 
 var topicSets = [][]string{{""}, {"t"}, {"", "t"}, {"u"}}
@@ -293,6 +412,8 @@ const (
 	opRepTopicT   // replay k=3 with topics {"t"} only
 	opRepHuge     // numerals around 2^63 / 2^64 (never issued)
 	opRepNoTopics // replay k=2 by a subscription without topics (a direct user of the replayer; the Server never does)
+	opRepInRange  // a canonical numeral that was never issued although it lies between the smallest and the largest issued one
+	opRepNextNum  // the numeral right after the largest issued one
 	numAbstractOps
 )
 
@@ -330,7 +451,7 @@ func (g *histGen) put(kind int) (idopt val.V, tok uint64, topics []string) {
 		return val.L(val.S("")), tok, topics
 	}
 	if wantID {
-		id := "m" + strconv.Itoa(g.nextMan)
+		id := g.manID(g.nextMan)
 		g.nextMan++
 		if !g.auto && kind != opPutNoTopic {
 			g.issued = append(g.issued, id)
@@ -391,6 +512,8 @@ func (g *histGen) replay(kind int) (idopt val.V, topics []string, script val.V) 
 	case opRepNoTopics:
 		idopt = g.recent(2)
 		topics = nil
+	case opRepInRange, opRepNextNum:
+		idopt = val.L(val.S(g.unissuedNumeral(kind == opRepInRange)))
 	case opRepHuge:
 		idopt = val.L(val.S([]string{"18446744073709551615", "9223372036854775808", "18446744073709551616", "9223372036854775807"}[len(g.issued)%4]))
 	}
@@ -439,6 +562,8 @@ func enumerate(alphabet []int, length int, f func(seq []int)) {
 	rec(0)
 }
 
+var exhaustiveStyles = []int{manStyleName, manStyleCounting, manStyleBlocks, manStyleDown, manStylePadded, manStyleMixed}
+
 var smallAlphabet = []int{opPut0, opPut2, opPutNoTopic, opPutWrongID, opPutEmptyID, opRepNewest, opRep1, opRep2, opRepUnknown, opRepUnset, opRepFail0, opRepNonCanon, opRepHuge}
 
 func weightedOp(r *rng.R) int {
@@ -471,8 +596,72 @@ func genFiniteCapacities(c *Ctx) {
 	}
 }
 
+// arrangements: every sequence of m distinct values out of 0..n-1
+func arrangements(n, m int, f func(seq []int)) {
+	seq := make([]int, 0, m)
+	used := make([]bool, n)
+	var rec func()
+	rec = func() {
+		if len(seq) == m {
+			f(seq)
+			return
+		}
+		for v := 0; v < n; v++ {
+			if !used[v] {
+				used[v] = true
+				seq = append(seq, v)
+				rec()
+				seq = seq[:len(seq)-1]
+				used[v] = false
+			}
+		}
+	}
+	rec()
+}
+
+// explicit IDs that are numerals, in every order: the publisher puts m distinct numbers out of base..base+5 (increasing,
+// decreasing, permuted, with gaps; zero-padded to the given width), then a subscriber presents every number of that range and
+// the next one - buffered, evicted or never issued.  emit gets the IDs put and the IDs presented.
+func manualNumeralSweep(emit func(name string, puts, presented []string)) {
+	for _, sp := range []struct {
+		base  int
+		width int
+	}{{0, 0}, {8, 0}, {0, 2}} {
+		spell := func(v int) string { return fmt.Sprintf("%0*d", sp.width, sp.base+v) }
+		for m := 2; m <= 4; m++ {
+			arrangements(6, m, func(seq []int) {
+				puts := make([]string, m)
+				for i, v := range seq {
+					puts[i] = spell(v)
+				}
+				presented := []string{}
+				for v := 0; v <= 6; v++ {
+					presented = append(presented, spell(v))
+				}
+				emit(fmt.Sprintf("directed:manual-numerals:%d-of-6", m), puts, presented)
+			})
+		}
+	}
+}
+
 func genFinite(c *Ctx) {
 	genFiniteCapacities(c)
+	manualNumeralSweep(func(name string, puts, presented []string) {
+		for _, n := range []int{2, 3, 4, 5} {
+			if n > len(puts)+1 {
+				continue
+			}
+			ops := []val.V{}
+			for i, id := range puts {
+				ops = append(ops, val.L(val.N(0), val.L(val.S(id)), val.Int(i+1), val.Strs([]string{""})))
+			}
+			for _, id := range presented {
+				ops = append(ops, val.L(val.N(1), val.L(val.S(id)), val.Strs([]string{""}), val.L()))
+			}
+			c.Count(name)
+			c.Emit(val.L(val.Int(n), val.Bool(false), val.List(ops)))
+		}
+	})
 	// directed: subscriptions without topics resuming from every age
 	for _, auto := range []bool{false, true} {
 		g := &histGen{auto: auto}
@@ -497,15 +686,22 @@ func genFinite(c *Ctx) {
 				if length == maxLen && n == 3 && !c.Thorough {
 					continue
 				}
-				enumerate(smallAlphabet, length, func(seq []int) {
-					g := &histGen{auto: auto}
-					ops := make([]val.V, len(seq))
-					for i, k := range seq {
-						ops[i] = finiteOp(g, k, nil)
-					}
-					c.Count(fmt.Sprintf("exhaustive:len%d", length))
-					c.Emit(val.L(val.Int(n), val.Bool(auto), val.List(ops)))
-				})
+				// below the maximal length also with explicit IDs spelled as numerals (for the longest histories it would triple the run)
+				styles := []int{manStyleName}
+				if length < maxLen {
+					styles = exhaustiveStyles
+				}
+				for _, style := range styles {
+					enumerate(smallAlphabet, length, func(seq []int) {
+						g := &histGen{auto: auto, manStyle: style}
+						ops := make([]val.V, len(seq))
+						for i, k := range seq {
+							ops[i] = finiteOp(g, k, nil)
+						}
+						c.Count(fmt.Sprintf("exhaustive:len%d", length))
+						c.Emit(val.L(val.Int(n), val.Bool(auto), val.List(ops)))
+					})
+				}
 			}
 		}
 	}
@@ -516,7 +712,7 @@ func genFinite(c *Ctx) {
 	for i := 0; i < nrand; i++ {
 		auto := c.R.Bool()
 		n := []int{2, 3, 4, 5, 7, 8, 16, 64}[c.R.Intn(8)]
-		g := &histGen{auto: auto}
+		g := randHist(c.R, auto, maxOps)
 		l := 1 + c.R.Intn(maxOps)
 		ops := make([]val.V, l)
 		for j := range ops {
@@ -611,6 +807,29 @@ func genValid(c *Ctx) {
 		c.Count("directed:subscription-without-topics")
 		c.Emit(val.L(val.Z(ttl), val.Bool(auto), val.L(), val.List(vops)))
 	}
+	// directed: explicit IDs that are numerals in every order (the ring is not full / grows from 4 to 8 slots on the way)
+	manualNumeralSweep(func(name string, puts, presented []string) {
+		for _, extra := range []int{0, 3} {
+			if extra > 0 && len(puts) != 3 {
+				continue
+			}
+			vops := []val.V{}
+			tok := uint64(0)
+			for i := 0; i < extra; i++ { // earlier events with names for IDs; they expire before the replays
+				tok++
+				vops = append(vops, val.L(val.N(0), val.Z(0), val.L(val.S("e"+strconv.Itoa(i))), val.N(tok), val.Strs([]string{""})))
+			}
+			for _, id := range puts {
+				tok++
+				vops = append(vops, val.L(val.N(0), val.Z(5), val.L(val.S(id)), val.N(tok), val.Strs([]string{""})))
+			}
+			for _, id := range presented {
+				vops = append(vops, val.L(val.N(1), val.Z(ttl+1), val.L(val.S(id)), val.Strs([]string{""}), val.L()))
+			}
+			c.Count(name)
+			c.Emit(val.L(val.Z(ttl), val.Bool(false), val.L(val.Z(0)), val.List(vops)))
+		}
+	})
 	// directed: "keep (almost) forever" TTLs - close to the largest Duration, 250 years
 	for _, auto := range []bool{false, true} {
 		for _, ttlv := range []int64{9223372036854775807 - 4_000_000_000_000, 250 * 365 * 24 * 3600 * 1_000_000_000, 1 << 62} {
@@ -672,7 +891,7 @@ func genValid(c *Ctx) {
 		auto := c.R.Bool()
 		ttlv := []int64{1, 5, 10, 100, 1000}[c.R.Intn(5)]
 		gci := []val.V{val.L(), val.L(val.Z(0)), val.L(val.Z(1)), val.L(val.Z(ttlv / 2)), val.L(val.Z(ttlv * 3))}[c.R.Intn(5)]
-		g := &histGen{auto: auto}
+		g := randHist(c.R, auto, maxOps)
 		l := 1 + c.R.Intn(maxOps)
 		now := int64(0)
 		vops := make([]val.V, l)
